@@ -16,6 +16,8 @@ IMPORTS = "From AV Require Import Model.SessionInv Model.SessionInvRun."
 XC = {"ProtocolError": "XProtocolError", "KeyError": "XKeyError", "AttributeError": "XAttributeError",
       "TypeError": "XTypeError", "SerializationError": "XSerializationError", "PayloadExceededError": "XPayloadExceeded",
       "ValueError": "(XOther 1)", "CBOREncodeError": "(XOther 2)", "CBOREncodeTypeError": "(XOther 2)"}
+SIG = {"ok": "SigOk", "short": "SigShort", "ill": "SigIllTyped"}
+KINDS = ["fixed", "defaults", "varargs", "varkw", "both", "kwonly"]
 FB = {"success_ser": "FbSuccessSer", "error_ser": "FbErrorSer", "exceeded": "FbExceeded"}
 
 
@@ -49,7 +51,10 @@ def c_beh(bh):
 
 def c_op(o):
     k = o[0]
-    if k == "reg": return f"ORegister {o[1]} {{| r_details := {b(o[2])}; r_coro := {b(o[3])} |}}"
+    if k == "reg":
+        check, sig = (o[4], o[5]) if len(o) >= 7 else (False, "ok")
+        return (f"ORegister {o[1]} {{| r_details := {b(o[2])}; r_coro := {b(o[3])}; r_check := {b(check)}; "
+                f"r_sig := {SIG[sig]} |}}")
     if k == "unreg": return f"OUnregister {o[1]}"
     if k == "inv": return f"OInvocation {o[1]} {o[2]} {c_payload(o[3])} {o[4]} {b(o[5])} {c_beh(o[6])}"
     if k == "int": return f"OInterrupt {o[1]}"
@@ -61,7 +66,7 @@ def c_op(o):
 
 
 def c_uri(u):
-    return {"app": lambda: f"(UApp {u[1]})", "runtime": lambda: "URuntime", "invalid_payload": lambda: "UInvalidPayload",
+    return {"app": lambda: f"(UApp {u[1]})", "runtime": lambda: "URuntime", "type_check": lambda: "UTypeCheck", "invalid_payload": lambda: "UInvalidPayload",
             "payload_exceeded": lambda: "UPayloadExceeded"}.get(u[0], lambda: (_ for _ in ()).throw(Undecodable(u)))()
 
 
@@ -125,6 +130,15 @@ TABLES = [OK_TBL] * 6 + [
 ]
 
 
+def g_reg(rng, reg, p_details=0.65, p_coro=0.3):
+    """registration: details, coroutine, check_types on/off, how the arguments fit, signature kind"""
+    check = rng.random() < 0.3
+    r = rng.random()
+    sig = "ok" if r < 0.84 else ("short" if r < 0.91 else "ill")
+    kind = rng.choice(KINDS if sig != "ill" else [k for k in KINDS if k != "both"])
+    return ["reg", reg, rng.random() < p_details, rng.random() < p_coro and not check, check, sig, kind]
+
+
 def g_payload(rng, pool, allow_empty=True):
     r = rng.random()
     pool[0] += 1
@@ -174,7 +188,7 @@ def gen_fake(rng, fw, nops):
     ops, regs = [], []
     for i in range(rng.choice([1, 2, 2, 3])):
         regs.append(100 + i)
-        ops.append(["reg", 100 + i, rng.random() < 0.65, rng.random() < 0.3])
+        ops.append(g_reg(rng, 100 + i))
     reqs, ninv, argid, pend_guess = [], 0, 1000, []
     lost = False
     for _ in range(nops):
@@ -212,7 +226,7 @@ def gen_fake(rng, fw, nops):
         elif r < 0.975:
             reg = rng.choice(regs + [100 + len(regs)])
             if reg not in regs: regs.append(reg)
-            ops.append(["reg", reg, rng.random() < 0.6, rng.random() < 0.3])
+            ops.append(g_reg(rng, reg, 0.6))
         elif not lost and rng.random() < 0.5:
             ops.append(["lose"]); lost = True
         else:
@@ -224,7 +238,8 @@ def gen_fake(rng, fw, nops):
 def gen_real(rng, fw, kind, role, ser, nops):
     """valid conversations only (a ProtocolError makes a real transport drop the connection)"""
     pool = [0]
-    ops = [["reg", 100, True, False], ["reg", 101, False, rng.random() < 0.5]]
+    ops = [["reg", 100, True, False, rng.random() < 0.4, "ok", rng.choice(KINDS)],
+           ["reg", 101, False, rng.random() < 0.5, False, "ok", rng.choice(KINDS)]]
     ninv, argid, req, pend = 0, 2000, 0, []
     for _ in range(nops):
         r = rng.random()
@@ -271,7 +286,45 @@ def fixed_real(fw, kind, role, ser):
         k += 1
     ops += [["inv", 900, 100, V(3900), 6, True, {"pre": [], "fin": ["pend"]}], ["prog", k, V(90)], ["int", 900], ["prog", k, V(91)]]
     cases.append({"transport": {"kind": kind, "role": role, "ser": ser, "limit": 512}, "ecls": [[1, 5]], "ops": ops})
+    # exact size boundary: the SERIALIZED terminal message is limit-1, limit, limit+1 octets long
+    L = 512
+    ops = [["reg", 100, True, False]]
+    k = 0
+    for j, target in enumerate((L - 1, L, L + 1, L - 1, L, L + 1)):
+        p = ["val", 400 + j, False, target > L, target]
+        if j < 3:
+            ops.append(["inv", 200 + j, 100, V(3200 + j), 4, False, {"pre": [], "fin": ["ret", ["plain", p]]}])
+        else:
+            ops += [["inv", 200 + j, 100, V(3200 + j), 4, False, {"pre": [], "fin": ["pend"]}], ["res", k, ["ok", ["plain", p]]]]
+        k += 1
+    for j, target in enumerate((L - 1, L, L + 1)):
+        ops.append(["inv", 300 + j, 100, V(3300 + j), 4, False,
+                    {"pre": [], "fin": ["raise", ["app", 3, ["val", 500 + j, False, target > L, target]]]}])
+    cases.append({"transport": {"kind": kind, "role": role, "ser": ser, "limit": L}, "ecls": [[1, 5]], "ops": ops})
+    cases.append(sig_case({"kind": kind, "role": role, "ser": ser, "limit": 512}, coro=(role == "client")))
     return cases
+
+
+def sig_case(transport, coro=False):
+    """registration options (check_types on/off, details on/off) x endpoint signature kinds, plus arguments that
+    do not bind / contradict a type hint; one invocation each, the endpoints report exactly what they received"""
+    V = lambda i: ["val", i, False, False]
+    ops, reg, req = [], 100, 0
+    for check in (False, True):
+        for kind in KINDS:
+            for wants in (False, True):
+                ops.append(["reg", reg, wants, coro and not check, check, "ok", kind])
+                req += 1
+                ops.append(["inv", req, reg, V(3400 + req), 3, wants and req % 2 == 0,
+                            {"pre": [V(600 + req)] if wants and req % 2 == 0 else [], "fin": ["ret", ["plain", V(700 + req)]]}])
+                reg += 1
+        for sig, kind in (("short", "fixed"), ("ill", "fixed"), ("ill", "varkw")):
+            ops.append(["reg", reg, False, coro and not check, check, sig, kind])
+            req += 1
+            ops.append(["inv", req, reg, V(3400 + req), 3, False, {"pre": [], "fin": ["ret", ["plain", V(700 + req)]]}])
+            reg += 1
+    ops += [["turn"], ["turn"]]
+    return {"transport": transport, "ecls": [[1, 5]], "ops": ops}
 
 
 # ---------------------------------------------------------------------------------------------------------------
@@ -301,6 +354,24 @@ def oracle(fw, case, log):
         if e[0] == "sent" and (e[1][0] == "error" or not e[1][4]):
             term.setdefault(e[1][1], []).append(i)
     inv_by_arg = {o[3][1]: o for o in ops if o[0] == "inv"}
+    # which registration (options, signature) an INVOCATION op met: the reg op that created the registration that
+    # is active at that point (a REGISTERED for an id that is still registered is refused and changes nothing)
+    segs, cur = {}, None
+    for e in log:
+        if e[0] == "op": cur = e[1]; segs[cur] = []
+        elif cur is not None: segs[cur].append(e)
+    reg_of_inv, active_reg, j0 = {}, {}, True
+    for i, o in enumerate(ops):
+        if o[0] == "reg" and j0 and o[1] not in active_reg: active_reg[o[1]] = o
+        elif o[0] == "unreg" and j0: active_reg.pop(o[1], None)
+        elif o[0] == "lose": j0 = False
+        elif o[0] == "inv": reg_of_inv[o[3][1]] = active_reg.get(o[2])
+    def unfit(o):
+        """the caller's arguments do not fit the endpoint (no binding; or type hint violated under check_types)"""
+        r = reg_of_inv.get(o[3][1])
+        if r is None or len(r) < 7: return False
+        return r[5] == "short" or (r[5] == "ill" and r[4])
+    interrupted = {o[1] for o in ops if o[0] == "int"}
     # 1. exactly one terminal reply per accepted invocation (histories end with everything finished)
     for req in sorted(set(acc_by_req) | set(term)):
         na, nt = len(acc_by_req.get(req, [])), len(term.get(req, []))
@@ -339,10 +410,6 @@ def oracle(fw, case, log):
                               f"exceptions out of the reply callback: {sorted(set(raised))}", req))
     # 1b. an INVOCATION for an active registration whose request id is not being processed must be taken
     #     (bookkeeping from the history and the log only: #accepted - #terminal replies so far)
-    segs, cur = {}, None
-    for e in log:
-        if e[0] == "op": cur = e[1]; segs[cur] = []
-        elif cur is not None: segs[cur].append(e)
     regs_active, joined, n_acc, n_term = set(), True, {}, {}
     for i, o in enumerate(ops):
         seg = segs.get(i, [])
@@ -359,6 +426,36 @@ def oracle(fw, case, log):
         for e in seg:
             if e[0] == "acc": n_acc[e[2]] = n_acc.get(e[2], 0) + 1
             if e[0] == "sent" and (e[1][0] == "error" or not e[1][4]): n_term[e[1][1]] = n_term.get(e[1][1], 0) + 1
+    # 1c. the terminal reply is a YIELD carrying the endpoint's return value when that value is serializable and within
+    #     the size limit (and nothing else interfered: no INTERRUPT, no failing progress call, arguments fit)
+    if stayed_up and ok_transport:
+        for a in acc:
+            o = inv_by_arg.get(a[4][1])
+            if o is None or a[2] in interrupted or len(acc_by_req.get(a[2], [])) != 1: continue
+            pre = o[6]["pre"]
+            if pre and not (a[6] and a[7]): continue
+            if any(pp[0] == "val" and (pp[2] or pp[3]) for pp in pre): continue
+            f, val = o[6]["fin"], None
+            if f[0] == "ret": val = f[1]
+            elif f[0] == "pend":
+                entered = next((e for e in log if e[0] == "called" and e[1] == a[1]), None)
+                if entered is None: continue
+                at = opidx.get(id(entered), -1)      # a result set before the body ran has no future to land in
+                first = next((r for i, r in enumerate(ops) if i > at and r[0] == "res" and r[1] == a[1]), None)
+                if first is not None and first[2][0] == "ok": val = first[2][1]
+            terms = [log[i] for i in term.get(a[2], [])]
+            if unfit(o):
+                if len(terms) == 1 and terms[0][1][0] != "error":
+                    viol.append(("session.invocation/unfit-arguments-not-rejected", f"arguments that do not fit the endpoint were answered by {terms[0]}", a[2]))
+                continue
+            if val is None or len(terms) != 1: continue
+            p = val[1]
+            if p[0] == "val" and (p[2] or p[3]): continue
+            want = ["yield", a[2], val[0] == "plain", p[:4], False]
+            if terms[0][1] != want:
+                tgt = f"/size={p[4]}-of-limit-{tr.get('limit')}" if len(p) > 4 else ""
+                viol.append((f"session.success/value-not-yielded/{tname}", f"endpoint returned {p}{tgt} (serializable, within the limit) "
+                             f"but the terminal reply is {terms[0][1]} instead of the YIELD carrying it", a[2]))
     # 2. progressive results: only if requested, only before the terminal reply
     for i, e in enumerate(log):
         if e[0] == "sent" and e[1][0] == "yield" and e[1][4]:
@@ -381,10 +478,16 @@ def oracle(fw, case, log):
                 good = (e[5] is None) == (not wants) and (e[5] is None or (e[5][0] == o[4] and e[5][1] == (bool(o[5]) and wants)))
             if not good:
                 viol.append(("session.invocation/argument-fidelity", f"endpoint call {e} does not match the INVOCATION {o}", e[2]))
+    for a in acc:
+        o = inv_by_arg.get(a[4][1])
+        if o is not None and unfit(o) and a[1] in calls:
+            viol.append(("session.invocation/unfit-arguments-not-rejected", f"endpoint entered although the arguments do not fit: {a}", a[2]))
     for k, n in calls.items():
         if n != 1: viol.append(("session.invocation/called-twice", f"endpoint call {k} entered {n} times", k))
     if fw == "tx":
         for a in acc:
+            o = inv_by_arg.get(a[4][1])
+            if o is not None and unfit(o): continue
             if a[1] not in calls: viol.append(("session.invocation/not-called", f"accepted invocation {a} never reached the endpoint", a[2]))
     return viol
 
@@ -424,9 +527,12 @@ def run(ck):
         "op histories (register/unregister, INVOCATION with an endpoint behaviour {returns plain/None/CallResult, small/"
         "un-serializable/oversized; raises ApplicationError/registered/unregistered class; returns a pending result "
         "resolved or failed later; coroutine; emits 0-3 progressive results, also after finishing}, INTERRUPT, transport "
-        "loss, loop turns; <= 3 concurrent) over (a) the wampdrv fake transport with a scripted send() classification "
+        "loss, loop turns; <= 3 concurrent; registrations with check_types on/off x endpoint signature kinds {fixed, defaults, "
+        "*args, **kwargs, both, keyword-only} x arguments that fit / do not bind / contradict a type hint, the endpoints "
+        "reporting exactly what they received) over (a) the wampdrv fake transport with a scripted send() classification "
         "table and (b) the real WampWebSocket{Server,Client}Protocol / WampRawSocket{Server,Client}Protocol (Twisted and "
-        "asyncio, json/msgpack/cbor, limit 512) fed with octets; non-trivial = at least one INVOCATION accepted; distinct "
+        "asyncio, json/msgpack/cbor, limit 512) fed with octets, including results and error arguments whose SERIALIZED "
+        "message is exactly limit-1, limit, limit+1 octets; non-trivial = at least one INVOCATION accepted; distinct "
         "= distinct (framework, transport, history)")
     ck.extra_tb += [
         "modelled, not verified: txaio future semantics (Twisted addCallbacks runs synchronously and does not route a "
@@ -457,6 +563,8 @@ def run(ck):
         for name, j in load_corpus():
             if j.get("fw") in (None, fw):
                 cases.append(j["case"]); labels.append("corpus:" + name)
+        for coro in (False, True):
+            cases.append(sig_case({"kind": "fake", "tbl": OK_TBL}, coro)); labels.append("fake-signatures")
         rng = ck.rng("fake/" + fw)
         for i in range(n_fake):
             cases.append(gen_fake(rng, fw, rng.choice([4, 6, 8, 10, 12, 16] if quick else [4, 8, 12, 16, 24])))
